@@ -97,12 +97,13 @@ def setup():
 BANDS = [(0.5, 2.0), (0.5, 2.0), (0.5, 2.0), (1.0, 1.5), (0.3, 0.7), (0.0, 1.0), (0.25, 4.0), (0.9, 1.1), (1.0, 2.0),
          (0.1, 0.2), (2.0, 2.0), (1.5, 1.0)]
 TICKS = [0.0, 1 / 64., 0.5, 1.0, 3.0, 10.0, 60.0]
+ODD_TICKS = [1e-9, 1e-3, 0.1, 4.999999, 5.0, 1e6]       # non-dyadic, tiny, exactly the window, huge (weight underflows to 0)
 
 
 def _cfg(r, kind):
   n = r.choice([0, 1, 2, 3, 4, 5, 6, 8])
   mn = r.choice([0, 1, 1, 1, 2, 3])
-  mx = r.choice([1, 2, 3, 4, 5, 6, BIG, BIG])
+  mx = r.choice([0, 1, 2, 3, 4, 5, 6, BIG, BIG])
   if mx < mn and r.random() < 0.8:
     mx = mn
   lo, hi = r.choice(BANDS)
@@ -115,14 +116,34 @@ def _cfg(r, kind):
     mn = max(mn, 1)
   cfg = {'init': list(range(n)), 'min_size': mn, 'max_size': mx, 'min_load': lo, 'max_load': hi,
          'failfast': r.random() < 0.3}
-  if kind == 'jitter' or r.random() < 0.15:
+  if kind == 'reenter':
+    cfg['failfast'] = False
+    cfg['init'] = list(range(max(n, 3)))
+  if kind == 'jitter' or r.random() < 0.15 or (kind == 'reenter' and r.random() < 0.5):
     cfg['jitter_min'] = 5
-    cfg['jitter_max'] = 10
+    cfg['jitter_max'] = r.choice([10, 10, 5])
+  # collaborators that complete synchronously, a second instance in the process, an ignored builder option
+  if r.random() < 0.3 or kind == 'reenter':
+    cfg['close_inline'] = True          # Close() fails the in-flight requests inline (re-enters the sink)
+  if r.random() < 0.2:
+    cfg['sync_open'] = r.choice([0.3, 0.6, 1.0])   # share of Open() calls whose result is set before Open() returns
+  if r.random() < 0.12:
+    cfg['twin'] = True
+  if r.random() < 0.1:
+    cfg['smoothing_window'] = r.choice([0, 1, 60])
   return cfg
 
 
 def _tick(r, big=False):
+  if r.random() < 0.04:
+    return {'op': 'tick', 'dt': r.choice(ODD_TICKS)}
   return {'op': 'tick', 'dt': r.choice(TICKS[3:] if big else TICKS)}
+
+
+def _get(r):
+  if r.random() < 0.1:
+    return {'op': 'get', 'again': True}   # the caller dispatches once more from inside the completion callback
+  return {'op': 'get'}
 
 
 def _opendone(r, pfail=0.2):
@@ -134,6 +155,9 @@ def _gen_ops(r, kind, cfg):
   ops = []
   nops = r.choice([20, 40, 60, 90])
   eps = 9
+  if r.random() < 0.15:
+    for _ in range(r.choice([1, 2, 3])):  # requests issued while the sink's own Open() is still pending
+      ops.append(_get(r))
   # complete the initial opens (most of the time) so that requests are served
   for _ in range(cfg['min_size'] + 1):
     if r.random() < 0.9:
@@ -142,7 +166,7 @@ def _gen_ops(r, kind, cfg):
     up = r.choice([4, 8, 14, 20])
     for _ in range(up):
       ops.append(_tick(r, True))
-      ops.append({'op': 'get'})
+      ops.append(_get(r))
       if r.random() < 0.6:
         ops.append(_opendone(r, 0.05))
     for _ in range(r.choice([0, 3])):
@@ -160,7 +184,7 @@ def _gen_ops(r, kind, cfg):
     up = r.choice([6, 10, 16])
     for _ in range(up):
       ops.append(_tick(r, True))
-      ops.append({'op': 'get'})
+      ops.append(_get(r))
       ops.append(_opendone(r, 0.0))
     n = len(cfg['init'])
     for ep in r.sample(range(max(n, 1)), min(n, r.choice([1, 2, 3]))):
@@ -174,23 +198,57 @@ def _gen_ops(r, kind, cfg):
         ops.append(_opendone(r, 0.0))
     for _ in range(r.choice([10, 20])):
       ops.append({'op': 'tick', 'dt': 5.0})
-      ops.append({'op': 'get'})
+      ops.append(_get(r))
       ops.append({'op': 'tick', 'dt': 1.0})
       ops.append({'op': 'put', 'k': 0})
       if r.random() < 0.3:
         ops.append(_opendone(r, 0.0))
     return ops
+  if kind == 'reenter':
+    # members that are marked down while they still hold requests are removed (contraction prefers them, departures,
+    # jitter); their Close() fails those requests inline, i.e. _OnPut (and a caller that dispatches again) runs in the
+    # middle of _ContractAperture / _RemoveSink
+    n = max(len(cfg['init']), 1)
+    for _ in range(r.choice([4, 8, 12])):
+      ops.append(_get(r))
+      ops.append(_tick(r))
+      ops.append(_opendone(r, 0.05))
+    for _ in range(r.choice([8, 16, 24])):
+      k = r.random()
+      if k < 0.25:
+        ops.append({'op': 'chan', 'ep': r.randrange(n), 'st': r.choice([4, 4, 3, 2])})
+      elif k < 0.5:
+        ops.append(_get(r))
+      elif k < 0.62:
+        ops.append({'op': 'leave', 'ep': r.randrange(n)})
+      elif k < 0.7:
+        ops.append({'op': 'join', 'ep': r.randrange(n)})
+      elif k < 0.8:
+        ops.append({'op': 'jitter'})
+      else:
+        ops.append({'op': 'put', 'k': r.randrange(16)})
+      ops.append(_tick(r, True) if r.random() < 0.5 else _opendone(r, 0.1))
+    x = r.randrange(n)                      # this member keeps its requests, closes, is found down, and is contracted
+    ops.append({'op': 'chan', 'ep': x, 'st': 4})
+    ops.append(_get(r))
+    ops.append(_opendone(r, 0.0))
+    for _ in range(14):
+      ops.append({'op': 'put', 'k': r.randrange(16), 'not_ep': x})
+      ops.append(_tick(r, True))
+      if r.random() < 0.4:
+        ops.append(_opendone(r, 0.0))
+    return ops
   if kind == 'steady':
     level = r.choice([1, 2, 3, 5, 8, 12])
     for _ in range(level):
-      ops.append({'op': 'get'})
+      ops.append(_get(r))
       ops.append(_tick(r))
     for _ in range(r.choice([10, 25, 40])):
       ops.append(_tick(r, True))
       ops.append({'op': 'put', 'k': r.randrange(16)})
       ops.append(_opendone(r, 0.0))
       ops.append(_tick(r))
-      ops.append({'op': 'get'})
+      ops.append(_get(r))
       ops.append(_opendone(r, 0.0))
     return ops
   wt = {'random': dict(tick=20, get=25, put=18, join=6, leave=6, chan=6, opendone=14, jitter=0, skew=1),
@@ -207,7 +265,7 @@ def _gen_ops(r, kind, cfg):
     elif k == 'skew':
       ops.append({'op': 'tick', 'dt': -r.choice([0.5, 2.0, 30.0])})
     elif k == 'get':
-      ops.append({'op': 'get'})
+      ops.append(_get(r))
     elif k == 'put':
       ops.append({'op': 'put', 'k': r.randrange(16)})
     elif k == 'join':
@@ -231,7 +289,7 @@ def _mk(seed, i, kind):
 
 def gen_cases(tier, seed):
   n = 600 if tier == 'quick' else 5000
-  kinds = ['random', 'random', 'ramp', 'drain', 'steady', 'fail', 'fail', 'jitter', 'ramp']
+  kinds = ['random', 'random', 'ramp', 'drain', 'steady', 'fail', 'fail', 'jitter', 'ramp', 'reenter']
   out = [_mk(seed, i, kinds[i % len(kinds)]) for i in range(n)]
   if tier == 'thorough':
     out += _small_scope()
@@ -255,7 +313,7 @@ def _small_scope():
 
 def search_cases(tier, seed, diverging):
   out = []
-  kinds = ['ramp', 'drain', 'steady', 'fail', 'jitter', 'random']
+  kinds = ['ramp', 'drain', 'steady', 'fail', 'jitter', 'random', 'reenter']
   for i in range(1500):
     out.append(_mk(seed + 104729, i, kinds[i % len(kinds)]))
   return out
@@ -300,7 +358,13 @@ def run_impl(case):
   cfg = case['config']
   w = W.World(cfg, _random.Random(case.get('seed', 0)))
   members = set(cfg['init'])
+  tw = None
   try:
+    if cfg.get('twin'):
+      # a second, independent sink in the same process, driven between the ops of the first one: class-level or
+      # module-level state shared between instances would show up as a divergence of the first sink from the model
+      tw = _Twin(case.get('seed', 0))
+      W.CUR[0] = w
     w.open_ar = w.sink.Open()
     w.settle()
     ev = w.take_events()
@@ -312,26 +376,27 @@ def run_impl(case):
       k = op['op']
       cause = 'join' if k == 'join' else 'expand'
       w.cause = cause
+      w.sync_fresh = []
       try:
         if k == 'tick':
           w.clock.now += op['dt']
         elif k == 'get':
           if not w.open_ar.ready():
-            rec['skip'] = 'not-open'
-          else:
-            st = S['Stack']()
-            m = S['Message']()
-            w.sink.AsyncProcessRequest(st, m, None, None)
-            e = m.properties.get(S['MessageProperties'].Endpoint)
-            rec['endpoint'] = W.id_of(e) if e is not None else None
-            if st.done:
-              err = getattr(st.msg, 'error', None)
-              rec['resp'] = type(err).__name__ if err is not None else 'ok'
+            rec['deferred'] = True       # issued while the sink's own Open() is pending: runs when that completes
+          st, m = w.dispatch(bool(op.get('again')))
+          e = m.properties.get(S['MessageProperties'].Endpoint)
+          rec['endpoint'] = W.id_of(e) if e is not None else None
+          if st.done:
+            err = getattr(st.msg, 'error', None)
+            rec['resp'] = type(err).__name__ if err is not None else 'ok'
         elif k == 'put':
           if not w.outstanding:
             rec['skip'] = 'nothing-outstanding'
           else:
-            ch, st = w.outstanding.pop(op['k'] % len(w.outstanding))
+            pool = list(range(len(w.outstanding)))
+            if op.get('not_ep') is not None:      # prefer requests that are not held by that member
+              pool = [j for j in pool if w.outstanding[j][0].epid != op['not_ep']] or pool
+            ch, st = w.outstanding.pop(pool[op['k'] % len(pool)])
             ch.held.remove(st)
             rec['chan'] = ch.cid
             st.AsyncProcessResponseMessage(S['MethodReturnMessage']())
@@ -372,6 +437,7 @@ def run_impl(case):
       except Exception as e:   # an exception escaping the sink into its caller is an observation
         rec['exc'] = type(e).__name__
         rec['exc_msg'] = str(e)[:200]
+      w.ev('sync-end')          # what follows in the trace of this op runs from the event loop (callbacks, greenlets)
       w.settle()
       ev = w.take_events()
       _apply_trace(w, ev, cause)
@@ -383,6 +449,12 @@ def run_impl(case):
         rec['errors'] = w.errors
         w.errors = []
       obs['steps'].append(rec)
+      if tw is not None:
+        tw.step()
+        W.CUR[0] = w
+    if tw is not None:
+      obs['twin'] = tw.finish()
+      W.CUR[0] = w
     return obs
   finally:
     # unblock a waiting jitter greenlet and forget the gauges of this sink
@@ -395,7 +467,61 @@ def run_impl(case):
     except Exception:
       pass
     w.drop_gauges()
+    if tw is not None:
+      tw.w.drop_gauges()
     W.CUR[0] = None
+
+
+class _Twin(object):
+  """The second sink: fixed configuration, its own PRNG, clock, channels and provider; simple traffic and churn."""
+
+  def __init__(self, seed):
+    import random as _random
+    self.r = _random.Random(seed * 7919 + 13)
+    cfg = {'init': [0, 1, 2, 3], 'min_size': 1, 'max_size': 3, 'min_load': 0.5, 'max_load': 2.0, 'failfast': False}
+    self.members = set(cfg['init'])
+    self.w = W.World(cfg, _random.Random(seed * 31 + 7))
+    self.w.open_ar = self.w.sink.Open()
+    self.w.settle()
+    self.errors = []
+
+  def step(self):
+    w, r = self.w, self.r
+    W.CUR[0] = w
+    w.cause = 'expand'
+    k = r.random()
+    try:
+      if k < 0.4:
+        w.clock.now += r.choice([0.5, 3.0, 10.0])
+        w.dispatch(False)
+      elif k < 0.65 and w.outstanding:
+        ch, st = w.outstanding.pop(r.randrange(len(w.outstanding)))
+        ch.held.remove(st)
+        st.AsyncProcessResponseMessage(W.S['MethodReturnMessage']())
+      elif k < 0.85 and w.opening:
+        ch = w.opening.pop(0)
+        ch.state = 2
+        ch.open_ar.set(True)
+      elif k < 0.92:
+        ep = r.randrange(5)
+        self.members.discard(ep)
+        w.provider.on_leave(W.Server(W.ep_of(ep)))
+      else:
+        ep = r.randrange(5)
+        self.members.add(ep)
+        w.cause = 'join'
+        w.provider.on_join(W.Server(W.ep_of(ep)))
+    except Exception as e:
+      self.errors.append('%s: %s' % (type(e).__name__, e))
+    w.settle()
+    w.take_events()
+    self.errors += w.errors
+    w.errors = []
+
+  def finish(self):
+    ints = self.w.internals()
+    return {'heap': sorted(x[0] for x in ints['heap']) if 'heap' in ints else None, 'idle': ints.get('idle'),
+            'members': sorted(self.members), 'errors': self.errors[:3]}
 
 
 # ---------------------------------------------------------------------------------------------
@@ -405,17 +531,33 @@ def _snapinfo(e):
   return e[-1] if isinstance(e[-1], dict) else {}
 
 
+_HOOK_END = {'down-end': 'down', 'onget-end': 'onget', 'onput-end': 'onput'}
+
+
 def _segments(op, events):
-  """Splits the event trace of one op into hook segments: (kind, head-event, [events])."""
+  """Splits the event trace of one op into hook segments (kind, head-event, [own events]); hooks can be nested (a member
+  channel that completes requests inside Close() re-enters the sink), a nested hook's events are its own, and what
+  follows its end belongs to the enclosing hook / op again.  Segments are listed in the order in which they start."""
   segs = []
-  cur = ['op:' + op, None, []]
-  segs.append(cur)
+  top = ['op:' + op, None, []]
+  segs.append(top)
+  stack = [top]
   for e in events:
-    if e[0] in ('down', 'onget', 'onput', 'jitter-start'):
-      cur = [e[0], e, []]
-      segs.append(cur)
+    if e[0] in ('down', 'onget', 'onput'):
+      seg = [e[0], e, []]
+      segs.append(seg)
+      stack.append(seg)
+    elif e[0] in _HOOK_END:
+      if len(stack) > 1:
+        stack.pop()
+    elif e[0] == 'jitter-start':
+      seg = ['jitter-start', e, []]      # op level (no end marker): the part of _Jitter that runs in this op
+      segs.append(seg)
+      stack[0] = seg
+      if len(stack) == 1:
+        top = seg
     else:
-      cur[2].append(e)
+      stack[-1][2].append(e)
   return segs
 
 
@@ -461,6 +603,7 @@ def monitor(case, obs):
   import math
   t0 = [(_snapinfo(e).get('t')) for e in obs['init']['events'] if _snapinfo(e).get('t') is not None]
   indep = {'v': None, 't': t0[0] if t0 else 1000.0}     # the monotonic clock starts when the sink is built
+  jit_on = [False]       # a jitter round is between its expansion and its end
   for i, (op, st) in enumerate(zip(case['ops'], obs['steps'])):
     tag = 'op %d %s' % (i, op['op'])
     snap = st['snap']
@@ -472,96 +615,135 @@ def monitor(case, obs):
     members_n = len(snap['members'])
     # running view of the active set during the op (external: add/remove trace; channel states from the event snapshots)
     cur = [[a[0], a[2]] for a in prev['active']]
-    leaving = op['ep'] if op['op'] == 'leave' else None
-    for kind, head, evs in _segments(op['op'], st['events']):
-      size_before = len(cur)
+    leaving = [op['ep'] if op['op'] == 'leave' else None]
+    first_get = [op['op'] == 'get']
+
+    def mk_ctx(kind, head):
       info = _snapinfo(head) if head is not None else {}
       cs = info.get('cs')
-      healthy_before = None
+      ctx = {'kind': kind, 'head': head, 'size_before': len(cur), 'healthy_before': None, 'idle_before': info.get('i'),
+             'ext_pending': info.get('xo'), 'grew': 0, 'shrank': 0, 'avg': None, 'outstanding': None, 'jit': jit_on[0]}
       if cs is not None:
-        healthy_before = sum(1 for _e, cid in cur if cid is not None and cs[cid] != 4)
-      idle_before = info.get('i')
-      ext_pending = info.get('xo')
-      grew = 0
-      shrank = 0
-      avg = None
-      if kind == 'onget' and st.get('endpoint') is not None and st['endpoint'] not in [c[0] for c in cur]:
-        add('traffic-to-inactive-member', '%s: request sent to %s, active %s' % (tag, st['endpoint'], [c[0] for c in cur]))
-      outstanding = None
-      if kind == 'onget' and info.get('out') is not None:
-        outstanding = info['out'] + 1      # the request being dispatched is not yet held by the member channel
+        ctx['healthy_before'] = sum(1 for _e, cid in cur if cid is not None and cs[cid] != 4)
+      if kind == 'onget':
+        if first_get[0]:
+          first_get[0] = False
+          if st.get('endpoint') is not None and st['endpoint'] not in [c[0] for c in cur]:
+            add('traffic-to-inactive-member', '%s: request sent to %s, active %s' % (tag, st['endpoint'], [c[0] for c in cur]))
+        if info.get('out') is not None:
+          ctx['outstanding'] = info['out'] + 1 + in_dispatch()   # the request being dispatched is not yet held by the member channel
       elif kind == 'onput' and info.get('out') is not None:
-        outstanding = info['out']          # the harness took the request off its books before completing it
-      for e in evs:
-        if e[0] == 'ema':
-          avg = e[4]
-          pv, sample = e[1], e[2]
-          if outstanding is not None:
-            if sample != outstanding:
-              add('smoothed-sample-not-outstanding', '%s: the EMA was fed %r but %d requests are outstanding' % (tag, sample, outstanding))
-            t = _snapinfo(e).get('t')
-            if t is not None:
-              t = max(t, indep['t'])
-              if indep['v'] is None:
-                indep['v'] = float(outstanding)
-                indep['t'] = t
-              else:
-                wgt = math.exp(-(t - indep['t']) / 5.0)
-                indep['v'] = outstanding * (1 - wgt) + indep['v'] * wgt
-                indep['t'] = t
-              if abs(avg - indep['v']) > 1e-9 * (1 + abs(indep['v'])):
-                add('smoothed-load-not-ema-of-outstanding', '%s: the sink smoothed load is %r, an independent 5 s EMA of the real outstanding count (%d now) gives %r'
-                    % (tag, avg, outstanding, indep['v']))
-          if pv is not None:
-            a, b = min(pv, sample), max(pv, sample)
-            if not (a - 1e-9 * (1 + abs(a)) <= avg <= b + 1e-9 * (1 + abs(b))):
-              add('ema-outside-sample-range', '%s: ema %r not between previous %r and sample %r' % (tag, avg, pv, sample))
-        elif e[0] == 'add':
-          cur.append([e[1], None])
-          grew += 1
-          if kind in ('onget', 'onput') and size_before + grew - 1 >= mx_size:
-            add('load-growth-beyond-max-size', '%s: load-driven expansion at size %d with max_size %d' % (tag, size_before + grew - 1, mx_size))
-          if kind == 'down' and head[2] == 1:
-            # the member the heap found "down" is merely still connecting (channel Idle): no failure, no departure,
-            # and not the load rule either -> this growth is not exempt from max_size and has no reason at all
-            add('growth-for-connecting-member', '%s: expansion to %s because member %s is still connecting (channel Idle), no failure and no load rule'
-                % (tag, e[1], head[1]))
-            if size_before + grew - 1 >= mx_size:
-              add('load-growth-beyond-max-size', '%s: expansion at size %d with max_size %d while serving a request, no member failed (member %s is only still connecting)'
-                  % (tag, size_before + grew - 1, mx_size, head[1]))
-        elif e[0] == 'create':
-          for c in cur:
-            if c[0] == e[2] and c[1] is None:
-              c[1] = e[1]
-              break
-        elif e[0] == 'remove' and e[2]:
-          for j, c in enumerate(cur):
-            if c[0] == e[1]:
-              del cur[j]
-              break
-          if e[1] == leaving and kind.startswith('op:'):
-            leaving = None      # the departure itself, not a contraction
-          else:
-            shrank += 1
-            if len(cur) < min(mn_size, members_n):
-              add('contraction-below-min-size', '%s: contraction left %d active, min_size %d, members %d' % (tag, len(cur), mn_size, members_n))
+        ctx['outstanding'] = info['out'] + in_dispatch()   # the request was taken off the books before it was completed
+      return ctx
+
+    def in_dispatch():
+      # requests whose dispatch is in progress further up the call stack (we are inside a Close() called from their _OnGet)
+      return sum(1 for c in stack if c['kind'] == 'onget')
+
+    def handle(e, ctx):
+      kind, head, size_before = ctx['kind'], ctx['head'], ctx['size_before']
+      outstanding = ctx['outstanding']
+      if e[0] == 'ema':
+        avg = ctx['avg'] = e[4]
+        pv, sample = e[1], e[2]
+        if outstanding is not None:
+          if sample != outstanding:
+            add('smoothed-sample-not-outstanding', '%s: the EMA was fed %r but %d requests are outstanding' % (tag, sample, outstanding))
+          t = _snapinfo(e).get('t')
+          if t is not None:
+            t = max(t, indep['t'])
+            if indep['v'] is None:
+              indep['v'] = float(outstanding)
+              indep['t'] = t
+            else:
+              wgt = math.exp(-(t - indep['t']) / 5.0)
+              indep['v'] = outstanding * (1 - wgt) + indep['v'] * wgt
+              indep['t'] = t
+            if abs(avg - indep['v']) > 1e-9 * (1 + abs(indep['v'])):
+              add('smoothed-load-not-ema-of-outstanding', '%s: the sink smoothed load is %r, an independent 5 s EMA of the real outstanding count (%d now) gives %r'
+                  % (tag, avg, outstanding, indep['v']))
+        if pv is not None:
+          a, b = min(pv, sample), max(pv, sample)
+          if not (a - 1e-9 * (1 + abs(a)) <= avg <= b + 1e-9 * (1 + abs(b))):
+            add('ema-outside-sample-range', '%s: ema %r not between previous %r and sample %r' % (tag, avg, pv, sample))
+      elif e[0] == 'add':
+        cur.append([e[1], None])
+        ctx['grew'] += 1
+        grew = ctx['grew']
+        if kind in ('onget', 'onput') and size_before + grew - 1 >= mx_size:
+          add('load-growth-beyond-max-size', '%s: load-driven expansion at size %d with max_size %d' % (tag, size_before + grew - 1, mx_size))
+        if kind == 'down' and head[2] == 1:
+          # the member the heap found "down" is merely still connecting (channel Idle): no failure, no departure,
+          # and not the load rule either -> this growth is not exempt from max_size and has no reason at all
+          add('growth-for-connecting-member', '%s: expansion to %s because member %s is still connecting (channel Idle), no failure and no load rule'
+              % (tag, e[1], head[1]))
+          if size_before + grew - 1 >= mx_size:
+            add('load-growth-beyond-max-size', '%s: expansion at size %d with max_size %d while serving a request, no member failed (member %s is only still connecting)'
+                % (tag, size_before + grew - 1, mx_size, head[1]))
+      elif e[0] == 'create':
+        for c in cur:
+          if c[0] == e[2] and c[1] is None:
+            c[1] = e[1]
+            break
+      elif e[0] == 'remove' and e[2]:
+        for j, c in enumerate(cur):
+          if c[0] == e[1]:
+            del cur[j]
+            break
+        if e[1] == leaving[0] and kind.startswith('op:'):
+          leaving[0] = None      # the departure itself, not a contraction
+        else:
+          ctx['shrank'] += 1
+          if len(cur) < min(mn_size, members_n):
+            add('contraction-below-min-size', '%s: contraction left %d active, min_size %d, members %d' % (tag, len(cur), mn_size, members_n))
+
+    def finish(ctx):
+      kind, avg, size_before = ctx['kind'], ctx['avg'], ctx['size_before']
+      grew, shrank, idle_before = ctx['grew'], ctx['shrank'], ctx['idle_before']
+      healthy_before, ext_pending = ctx['healthy_before'], ctx['ext_pending']
       if kind in ('onget', 'onput') and avg is not None and size_before > 0 and band_ok and idle_before is not None:
         load = Fraction(avg) / size_before
         f = avg / size_before
         tie = ((f >= cfg['max_load']) != (load >= hi)) or ((f <= cfg['min_load']) != (load <= lo))
         if not tie:
-          up = load >= hi and bool(idle_before) and size_before < mx_size and idle_before is not None
+          up = load >= hi and bool(idle_before) and size_before < mx_size
           if up and not grew:
             add('no-growth-at-max-load', '%s: load %s >= %s, idle %s, size %d < max %d but no expansion' % (tag, float(load), cfg['max_load'], idle_before, size_before, mx_size))
           if grew and load < hi:
             add('growth-below-max-load', '%s: expansion at load %s < max_load %s' % (tag, float(load), cfg['max_load']))
           if shrank and load > lo:
             add('shrink-above-min-load', '%s: contraction at load %s > min_load %s' % (tag, float(load), cfg['min_load']))
+          # (a jitter round in progress keeps its endpoint marked pending until the round ends: same exemption)
           down = (not up and load <= lo and healthy_before is not None and healthy_before > mn_size
-                  and ext_pending is not None and not ext_pending and load < hi)
+                  and ext_pending is not None and not ext_pending and load < hi and not ctx['jit'])
           if down and not shrank:
             add('no-shrink-at-min-load', '%s: load %s <= %s, healthy %d > min_size %d, no open in progress but no contraction' % (tag, float(load), cfg['min_load'], healthy_before, mn_size))
+
+    stack = []
+    stack.append(mk_ctx('op:' + op['op'], None))
+    for e in st['events']:
+      if e[0] in ('down', 'onget', 'onput'):
+        stack.append(mk_ctx(e[0], e))
+      elif e[0] in _HOOK_END:
+        if len(stack) > 1:
+          finish(stack.pop())
+      elif e[0] == 'jitter-start':
+        jit_on[0] = True
+      else:
+        if e[0] == 'schedule':
+          jit_on[0] = False
+        handle(e, stack[-1])
+    while stack:
+      finish(stack.pop())
     prev = snap
+  tw = obs.get('twin')
+  if tw:
+    if tw.get('errors'):
+      add('exception-escaped', 'second sink in the same process: %s' % tw['errors'])
+    if tw.get('heap') is not None and tw.get('idle') is not None:
+      h, i, m = tw['heap'], tw['idle'], set(tw['members'])
+      if len(h) != len(set(h)) or set(h) & set(i) or (set(h) | set(i)) != m:
+        add('second-instance-partition-broken', 'second sink in the same process: active %s idle %s members %s' % (h, i, sorted(m)))
   return v
 
 
@@ -582,98 +764,144 @@ class _TieSkip(Exception):
 
 
 def labels(case, obs):
-  """Per harness op: list of (kind, coq-term) micro labels, derived from the recorded trace only."""
+  """Per harness op: list of (kind, coq-term) micro labels, derived from the recorded trace only.
+
+  Hooks can be nested (a member channel whose Close() completes its in-flight requests inline re-enters the sink from
+  inside heap._RemoveSink): the label of the enclosing hook is emitted when the nested hook starts - everything the
+  enclosing hook does happens before it calls Close() - and a departure is two labels, LLeave at the start of the op and
+  LReplace at its end, with the nested labels in between."""
   cfg = case['config']
-  shadow = {'pending': set(), 'jit': None}
+  shadow = {'pending': set(), 'jit': None, 'jit_done': False}
   out = []
 
   def walk(opname, op, st, events):
     labs = []
-    cur = None           # open segment: dict(kind=..., ...)
+    stack = []                                  # open hook segments, innermost last
+    top0 = {'kind': None, 'after': []}          # what the op itself does outside any hook (depth 0)
+    if opname == 'leave':
+      top0 = {'kind': 'leave', 'after': [], 'emitted': False, 'removed': None}
 
-    def close():
-      nonlocal cur
-      if cur is None:
+    def emit(seg):
+      if seg.get('emitted'):
         return
-      k = cur['kind']
+      seg['emitted'] = True
+      k = seg['kind']
       if k == 'down':
-        labs.append(('nodedown', 'LNodeDown (%d)%%Z (%d)%%Z %s' % (cur['ep'], cur['st'], _oz(cur.get('ch')))))
+        labs.append(('nodedown', 'LNodeDown (%d)%%Z (%d)%%Z %s' % (seg['ep'], seg['st'], _oz(seg.get('ch')))))
       elif k == 'adjust':
-        if 'avg' not in cur:
+        if 'avg' not in seg:
           raise ValueError('adjust hook without Ema.Update')
         labs.append(('adjust', 'LAdjust (%d)%%Z (%d)%%Z %s %s %s %s' % (
-            cur['amount'], cur['sample'], _q(cur['w']), _q(cur['avg']), _oz(cur.get('ch')), _oz(cur.get('victim')))))
+            seg['amount'], seg['sample'], _q(seg['w']), _q(seg['avg']), _oz(seg.get('ch')), _oz(seg.get('victim')))))
       elif k == 'jstart':
-        labs.append(('jitterstart', 'LJitterStart %s' % _oz(cur.get('ch'))))
-        shadow['jit'] = cur.get('ch')
-        shadow['jit_victim'] = None
+        labs.append(('jitterstart', 'LJitterStart %s' % _oz(seg.get('ch'))))
+        shadow['jit'] = seg.get('ch')
+        shadow['jit_done'] = False
       elif k == 'leave':
-        labs.append(('leave', 'LLeave (%d)%%Z %s' % (op['ep'], _oz(cur.get('ch')))))
-      cur = None
+        if seg['removed']:
+          labs.append(('replace', 'LReplace (%d)%%Z %s' % (op['ep'], _oz(seg.get('ch')))))
+      labs.extend(seg['after'])
+      seg['after'] = []
 
-    if opname == 'leave':
-      cur = {'kind': 'leave'}
+    def current():
+      return stack[-1] if stack else top0
+
+    def close_top0():
+      """The op-level pseudo segment of a jitter start ends as soon as anything else happens."""
+      nonlocal top0
+      if top0['kind'] == 'jstart':
+        emit(top0)
+        top0 = {'kind': None, 'after': []}
+
     for e in events:
       info = _snapinfo(e)
+      k = e[0]
       p = info.get('p')
       if p is not None:
         gone = set(shadow['pending']) - set(p)
-        # The endpoint a running _Jitter waits on is discarded by _Jitter's own `finally` (modelled inside
-        # LJitterDone); that discard is first visible at the randint/Schedule of _ScheduleNextJitter which follow
-        # it in the same greenlet.  Seen anywhere else, the mark was removed by a completion callback of an OLDER
-        # expansion of the same endpoint (stale pending mark, endpoint went back to idle and was picked again):
-        # that is an ordinary LOpenDone.
-        jit_final = (e[0] == 'schedule') or (e[0] == 'randint' and e[1] == cfg.get('jitter_min') and e[1] != 1)
+        # The endpoint a running _Jitter waits on is discarded by _Jitter's own `finally`; that discard is first visible
+        # at the randint/Schedule of _ScheduleNextJitter which follow it in the same greenlet and is emitted there.
+        # Seen anywhere else, the mark was removed by a completion callback of an OLDER expansion of the same endpoint
+        # (stale pending mark, endpoint went back to idle and was picked again).  Both are LOpenDone labels.
+        jit_final = (k == 'schedule') or (k == 'randint' and e[1] == cfg.get('jitter_min') and e[1] != 1)
         if jit_final:
           gone.discard(shadow.get('jit'))
-          if cur is not None and cur['kind'] == 'jstart':
-            gone.discard(cur.get('ch'))
+          if top0['kind'] == 'jstart':
+            gone.discard(top0.get('ch'))
         gone = sorted(gone)
         if gone:
-          close()
+          if stack:
+            emit(stack[-1])
+          close_top0()
           for g in gone:
             labs.append(('opendone', 'LOpenDone (%d)%%Z' % g))
             shadow['pending'].discard(g)
-      k = e[0]
-      if k == 'down':
-        close()
-        cur = {'kind': 'down', 'ep': e[1], 'st': e[2]}
-      elif k in ('onget', 'onput'):
-        close()
-        cur = {'kind': 'adjust', 'amount': 1 if k == 'onget' else -1}
+      if k in ('down', 'onget', 'onput'):
+        if stack:
+          emit(stack[-1])                       # the enclosing hook has done its part (we are inside its Close())
+        close_top0()
+        if k == 'down':
+          stack.append({'kind': 'down', 'ep': e[1], 'st': e[2], 'after': []})
+        else:
+          stack.append({'kind': 'adjust', 'amount': 1 if k == 'onget' else -1, 'after': []})
+      elif k in _HOOK_END:
+        if not stack:
+          raise ValueError('unbalanced hook end %r' % (e[:-1],))
+        emit(stack.pop())
       elif k == 'jitter-start':
-        close()
-        cur = {'kind': 'jstart'}
+        close_top0()
+        top0 = {'kind': 'jstart', 'after': []}
+      elif k == 'sync-end':
+        if top0['kind'] == 'leave':
+          emit(top0)                            # the departure (incl. its replacement) is complete when on_leave returns
       elif k == 'ema':
-        if cur is None or cur['kind'] != 'adjust':
+        cur = current()
+        if cur['kind'] != 'adjust':
           raise ValueError('Ema.Update outside an adjust hook')
         cur['sample'] = e[2]
         cur['w'] = 0 if e[3] is None else e[3]
         cur['avg'] = e[4]
         cur['size'] = info.get('n')
       elif k == 'choice':
-        if cur is None:
-          raise ValueError('random.choice outside any hook: %r' % (e,))
+        cur = current()
+        if cur['kind'] is None or cur.get('emitted'):
+          raise ValueError('random.choice outside any hook: %r' % (e[:-1],))
         cur['ch'] = e[2]
         shadow['pending'].add(e[2])
+      elif k == 'chanstate':
+        lab = ('chan', 'LChan (%d)%%Z (%d)%%Z' % (e[2], e[3]))
+        cur = current()
+        if cur['kind'] is None or cur.get('emitted'):
+          labs.append(lab)                      # the member was added by a label that is already out (join, init)
+        else:
+          cur['after'].append(lab)              # after the label of the hook that is adding the member
       elif k == 'remove':
-        if cur is not None and cur['kind'] == 'adjust':
+        cur = current()
+        if cur['kind'] == 'adjust' and not cur.get('emitted'):
           if e[2]:
             cur['victim'] = e[1]
-        elif cur is not None and cur['kind'] == 'leave' and 'seen' not in cur:
-          cur['seen'] = True
+        elif cur['kind'] == 'leave' and cur['removed'] is None:
+          cur['removed'] = bool(e[2])           # heap._RemoveSink(ep) of the departure itself
+        elif not stack:
+          close_top0()
+          if e[2]:                              # _ContractAperture(True) of a jitter round
+            labs.append(('jitterdone', 'LJitterDone false (Some (%d)%%Z)' % e[1]))
+            shadow['jit_done'] = True
         else:
-          close()
-          if e[2]:
-            shadow['jit_victim'] = e[1]
+          raise ValueError('heap._RemoveSink inside %r' % (cur['kind'],))
       elif k == 'schedule':
-        close()
+        close_top0()
         if shadow.get('jit') is not None:
-          labs.append(('jitterdone', 'LJitterDone (%d)%%Z false %s' % (shadow['jit'], _oz(shadow.get('jit_victim')))))
+          if not shadow['jit_done']:
+            labs.append(('jitterdone', 'LJitterDone false None'))
+          labs.append(('opendone', 'LOpenDone (%d)%%Z' % shadow['jit']))      # finally: pending.discard(endpoint)
           shadow['pending'].discard(shadow['jit'])
           shadow['jit'] = None
-          shadow['jit_victim'] = None
-    close()
+          shadow['jit_done'] = False
+    while stack:
+      emit(stack.pop())
+    if top0['kind'] is not None:
+      emit(top0)
     return labs
 
   # initial server list: __AddServer in shuffled order
@@ -685,6 +913,11 @@ def labels(case, obs):
   for ep in (order or []):
     init_labs.append(('join', 'LJoin (%d)%%Z' % ep))
   init_labs += walk('init', None, None, [e for e in obs['init']['events'] if e[0] != 'schedule'])
+  fin = obs['init']['snap'].get('pending')
+  if fin is not None:
+    for g in sorted(shadow['pending'] - set(fin)):
+      init_labs.append(('opendone', 'LOpenDone (%d)%%Z' % g))
+      shadow['pending'].discard(g)
   out.append(init_labs)
   for op, st in zip(case['ops'], obs['steps']):
     k = op['op']
@@ -692,6 +925,8 @@ def labels(case, obs):
     if 'skip' not in st:
       if k == 'join':
         labs.append(('join', 'LJoin (%d)%%Z' % op['ep']))
+      elif k == 'leave':
+        labs.append(('leave', 'LLeave (%d)%%Z' % op['ep']))
       elif k == 'chan':
         labs.append(('chan', 'LChan (%d)%%Z (%d)%%Z' % (op['ep'], op['st'])))
       elif k == 'opendone' and st.get('current'):
@@ -790,6 +1025,24 @@ def _branch_tags(case, obs):
       prev = st['snap']
       continue
     evs = st['events']
+    depth = 0
+    for e in evs:
+      if e[0] in ('down', 'onget', 'onput'):
+        if depth > 0:
+          tags.append('reentrant:%s-inside-hook' % e[0])
+        elif k == 'leave':
+          tags.append('reentrant:%s-inside-departure' % e[0])
+        elif k in ('opendone', 'jitter') and e[0] == 'onput':
+          tags.append('reentrant:onput-inside-jitter-contraction')
+        depth += 1
+      elif e[0] in _HOOK_END:
+        depth -= 1
+      elif e[0] == 'redispatch':
+        tags.append('reentrant:caller-dispatches-from-completion')
+      elif e[0] == 'chanstate':
+        tags.append('open:completed-inside-Open-%s' % ('ok' if e[3] == 2 else 'failed'))
+    if st.get('deferred'):
+      tags.append('get:while-sink-open-pending')
     if k == 'join':
       if op['ep'] in prev['members']:
         tags.append('join:duplicate')
@@ -890,7 +1143,16 @@ def stats(cases, obs):
       down += d
     except Exception as e:
       br['stats-error:' + type(e).__name__] += 1
-  return {'ops': ops, 'model_labels': dict(lab), 'branch_histogram': dict(sorted(br.items())), 'tie_skipped_cases': ties,
+  dims = collections.Counter()
+  for c in cases:
+    for kx in ('close_inline', 'sync_open', 'twin', 'smoothing_window', 'jitter_min'):
+      if c['config'].get(kx):
+        dims[kx] += 1
+    if c['config'].get('max_size') == 0:
+      dims['max_size=0'] += 1
+    if c['config'].get('min_size') == 0:
+      dims['min_size=0'] += 1
+  return {'ops': ops, 'config_dimensions': dict(dims), 'model_labels': dict(lab), 'branch_histogram': dict(sorted(br.items())), 'tie_skipped_cases': ties,
           'load_driven_expansions': up, 'load_driven_contractions': down,
           'model_branches_not_producible_by_the_implementation': ['LJitterDone exn=true (ar.exception is never set when collaborators do not raise)',
                                                                   'Crash (KeyError in self._servers[new_endpoint]; excluded by C06_no_crash)']}
